@@ -1,0 +1,95 @@
+//go:build verif
+
+// Package verifx re-exports cesium's internal packages for the external verification
+// harness (build tag verif). It contains type aliases and constructor pass-throughs
+// only; it adds no behaviour.
+package verifx
+
+import (
+	"context"
+
+	"github.com/synnaxlabs/cesium/internal/alignment"
+	"github.com/synnaxlabs/cesium/internal/channel"
+	"github.com/synnaxlabs/cesium/internal/control"
+	"github.com/synnaxlabs/cesium/internal/domain"
+	"github.com/synnaxlabs/cesium/internal/index"
+	"github.com/synnaxlabs/cesium/internal/unary"
+	"github.com/synnaxlabs/cesium/internal/virtual"
+	"github.com/synnaxlabs/x/telem"
+)
+
+type (
+	Channel    = channel.Channel
+	ChannelKey = channel.Key
+
+	UnaryDB             = unary.DB
+	UnaryConfig         = unary.Config
+	UnaryIterator       = unary.Iterator
+	UnaryIteratorConfig = unary.IteratorConfig
+	UnaryWriter         = unary.Writer
+	UnaryWriterConfig   = unary.WriterConfig
+
+	VirtualDB           = virtual.DB
+	VirtualConfig       = virtual.Config
+	VirtualWriter       = virtual.Writer
+	VirtualWriterConfig = virtual.WriterConfig
+
+	DomainDB             = domain.DB
+	DomainConfig         = domain.Config
+	DomainIterator       = domain.Iterator
+	DomainIteratorConfig = domain.IteratorConfig
+	DomainReader         = domain.Reader
+	DomainWriter         = domain.Writer
+	DomainWriterConfig   = domain.WriterConfig
+
+	IndexDomain            = index.Domain
+	DistanceApproximation  = index.DistanceApproximation
+	TimeStampApproximation = index.TimeStampApproximation
+
+	ControlResource                = control.Resource
+	ControlConfig                  = control.Config
+	Controller[R control.Resource] = control.Controller[R]
+	Gate[R control.Resource]       = control.Gate[R]
+	GateConfig[R control.Resource] = control.GateConfig[R]
+	Transfer                       = control.Transfer
+	State                          = control.State
+)
+
+var (
+	ErrWriteConflict = domain.ErrWriteConflict
+	ErrRangeNotFound = domain.ErrRangeNotFound
+)
+
+func OpenUnary(ctx context.Context, cfgs ...unary.Config) (*unary.DB, error) {
+	return unary.Open(ctx, cfgs...)
+}
+
+func OpenVirtual(ctx context.Context, cfgs ...virtual.Config) (*virtual.DB, error) {
+	return virtual.Open(ctx, cfgs...)
+}
+
+func OpenDomain(cfgs ...domain.Config) (*domain.DB, error) { return domain.Open(cfgs...) }
+
+func DomainWrite(ctx context.Context, db *domain.DB, tr telem.TimeRange, data []byte) error {
+	return domain.Write(ctx, db, tr, data)
+}
+
+func DomainRead(ctx context.Context, db *domain.DB, tr telem.TimeRange) ([]byte, error) {
+	return domain.Read(ctx, db, tr)
+}
+
+func DomainIterRange(tr telem.TimeRange) domain.IteratorConfig { return domain.IterRange(tr) }
+
+func UnaryIterRange(tr telem.TimeRange) unary.IteratorConfig { return unary.IterRange(tr) }
+
+func NewController[R control.Resource](cfg control.Config) (*control.Controller[R], error) {
+	return control.New[R](cfg)
+}
+
+func DefaultGateConfig[R control.Resource]() control.GateConfig[R] {
+	return control.DefaultGateConfig[R]()
+}
+
+func LeadingAlignment(domainIdx, sampleIdx uint32) telem.Alignment {
+	return alignment.Leading(domainIdx, sampleIdx)
+}
